@@ -41,6 +41,8 @@ def make(kind, mode="min", seed=0, R=4, mra=True, space=None, metric="m", allow_
     so = shared("so", so)
     info = dict(metric=metric, resource_attr="epoch", mra=None, metrics=None)
     base_space = dict(space) if space is not None else {"a": uniform(0, 1), "b": randint(0, 9)}
+    if kw.get("int_space"):
+        base_space = {"a": randint(0, kw.pop("int_space") - 1)}   # a small finite space (JSON-able configuration key)
     if kind.startswith("fifo"):
         searcher = {"fifo-random": "random", "fifo-grid": "grid", "fifo-bo": "bayesopt"}[kind]
         if kind == "fifo-grid":
